@@ -394,3 +394,70 @@ pub fn execute(
         trace: ctx.trace,
     }
 }
+
+/// `execute` in a forked child: a scenario that kills the process (abort on allocation failure,
+/// stack overflow, a signal) costs the child only, and comes back as a `process-death` outcome.
+/// Only called while this process is single-threaded (after the batch has been collected).
+pub fn execute_isolated(
+    def: &EngineDef,
+    prop: &str,
+    scenario: &Value,
+    known: &KnownFindings,
+    trace: bool,
+) -> RunOut {
+    use std::io::{Read, Write};
+    use std::os::fd::FromRawFd;
+    let mut fds = [0i32; 2];
+    // SAFETY: plain pipe/fork/waitpid; the child only runs `execute`, writes its result and _exits.
+    unsafe {
+        if libc::pipe(fds.as_mut_ptr()) != 0 {
+            let mut stats = Stats::default();
+            return execute(def, prop, scenario, &mut stats, known, trace);
+        }
+        let _ = std::io::stdout().flush();
+        let _ = std::io::stderr().flush();
+        let pid = libc::fork();
+        if pid < 0 {
+            libc::close(fds[0]);
+            libc::close(fds[1]);
+            let mut stats = Stats::default();
+            return execute(def, prop, scenario, &mut stats, known, trace);
+        }
+        if pid == 0 {
+            libc::close(fds[0]);
+            // keep the child's crash reports out of the check's output
+            let devnull = libc::open(c"/dev/null".as_ptr(), libc::O_WRONLY);
+            if devnull >= 0 {
+                libc::dup2(devnull, 2);
+            }
+            let mut stats = Stats::default();
+            let out = execute(def, prop, scenario, &mut stats, known, trace);
+            let bytes = serde_json::to_vec(&out).unwrap_or_default();
+            let mut f = std::fs::File::from_raw_fd(fds[1]);
+            let _ = f.write_all(&bytes);
+            let _ = f.flush();
+            libc::_exit(0);
+        }
+        libc::close(fds[1]);
+        let mut f = std::fs::File::from_raw_fd(fds[0]);
+        let mut buf = Vec::new();
+        let _ = f.read_to_end(&mut buf);
+        let mut status = 0i32;
+        libc::waitpid(pid, &mut status, 0);
+        if let Ok(out) = serde_json::from_slice::<RunOut>(&buf) {
+            return out;
+        }
+        let how = if libc::WIFSIGNALED(status) { format!("signal {}", libc::WTERMSIG(status)) } else { format!("exit status {}", libc::WEXITSTATUS(status)) };
+        RunOut {
+            digest: 0,
+            nontrivial: false,
+            violation: Some(Violation {
+                invariant: "process-death".into(),
+                signature: "process-death".into(),
+                detail: format!("the process executing this scenario died ({how})"),
+            }),
+            known_hits: vec![],
+            trace: None,
+        }
+    }
+}
